@@ -4,7 +4,7 @@ CONSTANTS
   MAXSTEPS = 0
   MAXTICK = 3
   MAXLEN = 3
-  STRIDE = 40
+  STRIDE = 80
 INVARIANT C01_NeverAWrongCall
 INVARIANT C01_AllCallsWhenDone
 INVARIANT C01_Rejected
